@@ -874,3 +874,42 @@ def n1(ctx):
         ctx.check('%s/explicit-entries-first' % nm, bool(pre),
                   '%s() answers from node_entries when the node has explicit entries' % nm.lower(),
                   '%s() ignores node_entries' % nm.lower(), fn_.loc)
+
+
+@rule('N2', floor=2, title='the backwards walkers take the number of consumed nodes from the recursive call')
+def n2(ctx):
+    prog = ctx.cxx()
+    for name in ('PyTreeSpec::PathsImpl', 'PyTreeSpec::AccessorsImpl'):
+        for f in _insts(prog, name):
+            lams = [l for l in prog.lambdas_of(f)
+                    if any(callee_func(prog, l, c) is not None and
+                           callee_func(prog, l, c).qualname == f.qualname for c in calls_in(l.body))]
+            ctx.require(len(lams) == 1, '%s: %d recursing lambdas' % (inst(f), len(lams)))
+            l = lams[0]
+            inits = local_inits(l)
+            bad = []
+            rets = [r for r in l.body.walk() if r.kind == 'ReturnStmt']
+            for r in rets:
+                e = strip_casts(r.kids[0]) if r.kids else None
+                p = member_path(e) if e is not None else None
+                src = inits.get(p) if p else e
+                ok = src is not None and any(callee_func(prog, l, c) is not None and
+                                             callee_func(prog, l, c).qualname == f.qualname
+                                             for c in calls_in(src))
+                if not ok:
+                    bad.append(r)
+            ctx.check('%s/recurse-returns-callee-count' % short(f).split('::')[-1], not bad and bool(rets),
+                      '%s: the per-child step returns exactly what the recursive call consumed' % inst(f),
+                      '%s: the per-child step can return `%s` instead of the recursive call\'s node '
+                      'count: the parent then resumes at the wrong position (InternalError or '
+                      'wrong paths for the following children)'
+                      % (inst(f), bad[0].kids[0].text(3) if bad and bad[0].kids else '?'),
+                      (bad[0].loc if bad else f.loc))
+            # and the caller subtracts it
+            uses = [n_ for n_ in f.body.walk() if n_.kind == 'CompoundAssignOperator' and n_.op == '-='
+                    and member_path(n_.kids[0]) == 'cur']
+            okc = bool(uses) and all(any((c.callee_name() == 'operator()') for c in calls_in(u.kids[1]))
+                                     for u in uses)
+            ctx.check('%s/cur-advances-by-callee-count' % short(f).split('::')[-1], okc,
+                      '%s: `cur` moves back by the count each child reports' % inst(f),
+                      '%s: `cur` is not advanced by the value returned for the child' % inst(f), f.loc)
